@@ -745,6 +745,53 @@ impl Session {
         self.trace.push(json!({"ev":"op","op":"asset_insert","peer":peer,"kind":kind.name(),"uuid":uuid.map(|u| hex(u.as_bytes())),"n":n,"hash":hash}));
     }
 
+    /// assets whose content sits at the edge of its domain: legal values an application can hold
+    pub fn asset_insert_edge(&mut self, peer: u32, kind: AKind, uuid: Uuid, variant: u64) {
+        use bevy::render::{
+            render_asset::RenderAssetUsages,
+            render_resource::{Extent3d, PrimitiveTopology, TextureDimension, TextureFormat},
+        };
+        let w = self.peers[peer as usize].app.world_mut();
+        match kind {
+            AKind::Mesh => {
+                let mut mesh = Mesh::new(PrimitiveTopology::TriangleList, RenderAssetUsages::MAIN_WORLD | RenderAssetUsages::RENDER_WORLD);
+                match variant {
+                    0 => {
+                        // vertices, an index buffer that is present but empty
+                        mesh.insert_attribute(Mesh::ATTRIBUTE_POSITION, vec![[0.0f32, 0.0, 0.0], [1.0, 0.0, 0.0], [0.0, 1.0, 0.0]]);
+                        mesh.insert_indices(bevy::render::mesh::Indices::U32(vec![]));
+                    }
+                    1 => {
+                        // no attribute at all, 16-bit indices present but empty
+                        mesh.insert_indices(bevy::render::mesh::Indices::U16(vec![]));
+                    }
+                    _ => {
+                        // an attribute of length zero and indices that point past it
+                        mesh.insert_attribute(Mesh::ATTRIBUTE_POSITION, Vec::<[f32; 3]>::new());
+                        mesh.insert_indices(bevy::render::mesh::Indices::U32(vec![5, 6, 7]));
+                    }
+                }
+                w.resource_mut::<Assets<Mesh>>().insert(AssetId::Uuid { uuid }, mesh);
+            }
+            AKind::Image => {
+                let (wd, ht, data) = match variant { 0 => (0u32, 4u32, vec![]), 1 => (3, 0, vec![]), _ => (1, 1, vec![0u8; 4]) };
+                let img = Image::new(
+                    Extent3d { width: wd, height: ht, depth_or_array_layers: if variant == 2 { 1 } else { 1 } },
+                    TextureDimension::D2,
+                    data,
+                    TextureFormat::Rgba8Unorm,
+                    RenderAssetUsages::MAIN_WORLD | RenderAssetUsages::RENDER_WORLD,
+                );
+                w.resource_mut::<Assets<Image>>().insert(AssetId::Uuid { uuid }, img);
+            }
+            _ => {
+                let bytes: Vec<u8> = match variant { 0 => vec![], 1 => vec![0], _ => vec![0xFF; 3] };
+                w.resource_mut::<Assets<AudioSource>>().insert(AssetId::Uuid { uuid }, AudioSource { bytes: bytes.into() });
+            }
+        }
+        self.trace.push(json!({"ev":"op","op":"asset_insert_edge","peer":peer,"kind":kind.name(),"uuid":hex(uuid.as_bytes()),"variant":variant}));
+    }
+
     /// an announcement of an audio asset served by somebody else's endpoint (what the host relays for a client's asset):
     /// the genuine wire message, sent through the host's `RenetServer` to every client
     pub fn announce_external_audio(&mut self, id: Uuid, url: &str) -> bool {
